@@ -896,16 +896,19 @@ pub fn verif_run_groups(
 	quiet: bool)
 	-> Result<asm::AssemblyResult, ()>
 {
+	let mut output_groups = Vec::new();
+	for g in groups
+	{
+		output_groups.push(CommandOutput {
+			format: g.0,
+			printout: g.1,
+			output_filename: g.2,
+		});
+	}
+
 	let command = Command {
 		input_filenames,
-		output_groups: groups
-			.into_iter()
-			.map(|g| CommandOutput {
-				format: g.0,
-				printout: g.1,
-				output_filename: g.2,
-			})
-			.collect(),
+		output_groups,
 		opts,
 		quiet,
 		use_colors: false,
